@@ -14,7 +14,8 @@
 
    This is the REPAIRED reader (/repo `fix:` commits, see known_findings.d/theta-*.json): entry
    bits in 1..=63, at most 4 entry-count bytes, lengths checked before allocating, checked delta
-   sums, ordered images must be ascending, theta in [1, 2^63-1], serVer 2 exact form not empty. *)
+   sums, ordered images must be ascending, theta in [1, 2^63-1], serVer 2 exact form not empty,
+   a serVer 4 image flagged empty holds no entries. *)
 From DS Require Import Base.Prelude Base.ThetaLib Base.BitExp Model.Theta.
 From DS Require Gen.GenTheta Gen.GenCodec Gen.GenBitPack.
 Open Scope N_scope.
@@ -211,7 +212,7 @@ Fixpoint short (n : nat) (l : list N) : bool :=
 (* `while i + BLOCK_WIDTH <= len { pack_bits_block }` then the BitPacker tail *)
 Fixpoint pack_deltas (fuel : nat) (bits : N) (ds : list N) : outcome (list N) :=
   match fuel with
-  | O => Ok []
+  | O => Stuck                 (* out of fuel: excluded by the fuel bound, Proofs/ThetaCodec.v *)
   | S f =>
       if negb (short (N.to_nat BLOCK_WIDTH) ds) then
         obind (pack_bits_block (firstn (N.to_nat BLOCK_WIDTH) ds) bits) (fun b =>
@@ -343,7 +344,7 @@ Definition rd_count (neb : N) (bs : list N) : outcome (N * list N) := rd (N.to_n
 (* `while i + BLOCK_WIDTH <= num_entries { read_exact(block); unpack_bits_block }` then the tail *)
 Fixpoint unpack_deltas (fuel : nat) (bits : N) (remaining : N) (bs : list N) : outcome (list N) :=
   match fuel with
-  | O => Ok []
+  | O => Stuck                 (* out of fuel: excluded by the fuel bound, Proofs/ThetaCodec.v *)
   | S f =>
       if BLOCK_WIDTH <=? remaining then
         if short (N.to_nat bits) bs then Err
@@ -385,7 +386,8 @@ Definition deserialize_v4 (pre_longs sh : N) (bs : list N) : outcome csk :=
       obind (rd_count neb bs) (fun '(num_entries, bs) =>
       let packed_bytes := (num_entries / BLOCK_WIDTH) * entry_bits
                           + ((num_entries mod BLOCK_WIDTH) * entry_bits + 7) / 8 in
-      if N.of_nat (length bs) <? packed_bytes then Err
+      if empty && (negb (num_entries =? 0) || negb (theta =? MAX_THETA)) then Err
+      else if N.of_nat (length bs) <? packed_bytes then Err
       else
         obind (unpack_deltas (S (N.to_nat (num_entries / BLOCK_WIDTH))) entry_bits num_entries bs) (fun ds =>
         obind (undo_deltas 0 theta ds) (fun entries =>
